@@ -1092,7 +1092,8 @@ func checkStatusCaseNextToDataCase(c *Ctx, rule string, alone bool) {
 			eq *ssa.BinOp
 			k  int64
 		}
-		groups := map[ssa.Value][]cmp{}
+		// keyed by what is compared (a field read twice is one thing compared twice)
+		groups := map[string][]cmp{}
 		eachInstr(fn, func(in ssa.Instruction) {
 			bo, ok := in.(*ssa.BinOp)
 			if !ok || (bo.Op != token.EQL && bo.Op != token.NEQ) {
@@ -1107,7 +1108,7 @@ func checkStatusCaseNextToDataCase(c *Ctx, rule string, alone bool) {
 				return
 			}
 			// `typ != K` guards are the same test with the branches exchanged
-			groups[x] = append(groups[x], cmp{bo, k})
+			groups[valKey(x)] = append(groups[valKey(x)], cmp{bo, k})
 		})
 		ord := 0
 		for _, g := range groups {
